@@ -256,4 +256,28 @@ theorem sorted_relabelF {as as' : List Int → List Nat} (has : IsArgsort as) (h
   sortCells_view has has' h (bh.cellHyp hI0) (hκ.pointMap _)
 
 end base
+/-- **soundness of the decidable hypothesis** `Spec.baseHyp` (what can be evaluated per case) -/
+theorem baseHyp_sound {h : List Nat → Int} {f : MeshFields} (hb : baseHyp h f = true) :
+    BaseHyp h f (sepA (meshTolOf f.mesh)) (sepB (meshTolOf f.mesh))
+      (pointData (sepA (meshTolOf f.mesh)) (baseOf f).mesh).M
+      (pointData (sepA (meshTolOf f.mesh)) (baseOf f).mesh).cands := by
+  unfold baseHyp at hb
+  simp only [Bool.and_eq_true, Bool.not_eq_true', decide_eq_true_eq] at hb
+  obtain ⟨⟨⟨⟨⟨hwf, hty⟩, hcf⟩, hne⟩, hpt⟩, hhash⟩ := hb
+  have hwf2 : f.wf2 = true := by
+    unfold MeshFields.wf2
+    simp only [Bool.and_eq_true, decide_eq_true_eq]
+    exact ⟨⟨hwf, hty⟩, hcf⟩
+  unfold pointHyp at hpt
+  simp only [Bool.and_eq_true] at hpt
+  refine ⟨Fc.wf2_WFP f hwf2, ?_, pointSep_sound hpt.1.2, distinguishable_sound hpt.2, ?_⟩
+  · intro e
+    rw [e] at hne
+    simp at hne
+  · intro I0 hI0 b hbm
+    show (b.2.map fun r => h (sortNat r)).Nodup
+    rw [hI0] at hhash
+    simp only [List.all_eq_true, decide_eq_true_eq] at hhash
+    exact hhash b hbm
+
 end Fc.C02
